@@ -1,7 +1,7 @@
 #!/bin/sh
 # Offline setup: build govc and warm the Go build cache (export data) for the packages under contract.
 set -e
-export PATH=/opt/veriftools/go1.26.8/bin:$PATH GOTOOLCHAIN=local GOFLAGS=-mod=mod GOPROXY=off GOSUMDB=off
+export PATH=/opt/veriftools/go1.26.8/bin:$PATH GOTOOLCHAIN=local GOFLAGS=-mod=mod GOPROXY=off GOSUMDB=off CGO_ENABLED=0
 cd /verif && ./build.sh
 # warm export data: one go list -export per module that has packages under contract
 python3 - <<'PY'
